@@ -919,3 +919,185 @@ Proof.
   intros Hb Hr Hcs Hhs H. pose proof (choose_cases strat burn uxa coins hours Hb Hr Hcs Hhs) as Hc.
   rewrite H in Hc. exact Hc.
 Qed.
+
+(* ------------------------------------------------- create: completeness *)
+Definition nf (e : string) : Prop := e <> ErrInsufficientBalance /\ e <> ErrInsufficientHours.
+Definition funds_ok (burn : Z) (p : params) (uxb : list ux) (e : string) : Prop :=
+  (e = ErrInsufficientBalance -> csum uxb < ocsum (p_to p)) /\
+  (e = ErrInsufficientHours -> ocsum (p_to p) <= csum uxb /\ remaining_of burn (hsum uxb) < ohsum (p_to p)).
+
+Lemma nf_funds burn p uxb e : nf e -> funds_ok burn p uxb e.
+Proof. intros [H1 H2]. split; intros Hc; contradiction. Qed.
+
+Ltac nf_const := split; intros Hc; cbv in Hc; discriminate Hc.
+
+Lemma bindR_err {A B} (r : R A) (f : A -> R B) e :
+  bindR r f = Val (inl e) -> r = Val (inl e) \/ exists a, r = Val (inr a) /\ f a = Val (inl e).
+Proof. destruct r as [|[e'|a]]; cbn [bindR]; intros H; try discriminate; [left; injection H as ->; reflexivity|right; exists a; split; [reflexivity|exact H]]. Qed.
+
+Lemma lift_err {A} (r : res A) e : lift r = Val (inl e) -> False.
+Proof. destruct r; cbn [lift ok]; discriminate. Qed.
+
+Lemma chk_add_err a b e : chk (AddUint64 a b) = Val (inl e) -> nf e.
+Proof. unfold AddUint64. destruct (_ || _); cbn [chk ok fail]; intros H; [|discriminate]. injection H as <-. nf_const. Qed.
+Lemma chk_u2i_err a e : chk (Uint64ToInt64 a) = Val (inl e) -> nf e.
+Proof. unfold Uint64ToInt64. destruct (_ <? _); cbn [chk ok fail]; intros H; [|discriminate]. injection H as <-. nf_const. Qed.
+Lemma chk_i2u_err a e : chk (Int64ToUint64 a) = Val (inl e) -> nf e.
+Proof. unfold Int64ToUint64. destruct (_ <? _); cbn [chk ok fail]; intros H; [|discriminate]. injection H as <-. nf_const. Qed.
+Lemma chk_as_err e0 r e : chk_as e0 r = Val (inl e) -> e = e0.
+Proof. destruct r as [|[v [e1|]]]; cbn [chk_as ok fail]; intros H; try discriminate. injection H as <-. reflexivity. Qed.
+
+Lemma validate_to_nf : forall to e, validate_to to = Some e -> nf e.
+Proof.
+  induction to as [|o r IH]; intros e H; cbn [validate_to] in H; [discriminate|].
+  destruct (o_coins o =? 0); [injection H as <-; nf_const|].
+  destruct (o_addr o =? 0); [injection H as <-; nf_const|]. apply IH. exact H.
+Qed.
+
+Lemma validate_nf p e : validate p = Some e -> nf e.
+Proof.
+  unfold validate. intros H.
+  destruct (match p_change p with Some a => a =? 0 | None => false end); [injection H as <-; nf_const|].
+  destruct (len (p_to p) =? 0); [injection H as <-; nf_const|].
+  destruct (validate_to (p_to p)) eqn:Ev; [injection H as <-; eapply validate_to_nf; exact Ev|].
+  destruct (negb (nodupb txout_eqb (p_to p))); [injection H as <-; nf_const|].
+  destruct (p_type p); destruct (existsb (fun o => negb (o_hours o =? 0)) (p_to p)); destruct (p_mode p);
+    destruct (p_share p) as [[num den]|]; try destruct ((num <? 0) || (den <? num));
+    try discriminate; injection H as <-; nf_const.
+Qed.
+
+Lemma sum_to_nf : forall to c h e, sum_to to c h = Val (inl e) -> nf e.
+Proof.
+  induction to as [|o r IH]; intros c h e H; cbn [sum_to] in H; [discriminate|].
+  apply bindR_err in H. destruct H as [H|(c1 & _ & H)]; [apply chk_as_err in H; subst e; nf_const|].
+  apply bindR_err in H. destruct H as [H|(h1 & _ & H)]; [apply chk_as_err in H; subst e; nf_const|].
+  eapply IH. exact H.
+Qed.
+
+Lemma sum_spends_nf : forall sp n c h e, sum_spends sp n c h = Val (inl e) -> nf e.
+Proof.
+  induction sp as [|u r IH]; intros n c h e H; cbn [sum_spends] in H; [discriminate|].
+  apply bindR_err in H. destruct H as [H|(c1 & _ & H)]; [eapply chk_add_err; exact H|].
+  apply bindR_err in H. destruct H as [H|(h1 & _ & H)]; [eapply chk_add_err; exact H|].
+  destruct (n >=? MaxUint16); [injection H as <-; nf_const|]. eapply IH. exact H.
+Qed.
+
+Lemma sum_chk_as_nf e0 : nf e0 -> forall l acc e, sum_chk_as e0 l acc = Val (inl e) -> nf e.
+Proof.
+  intros H0. induction l as [|x r IH]; intros acc e H; cbn [sum_chk_as] in H; [discriminate|].
+  apply bindR_err in H. destruct H as [H|(a & _ & H)]; [apply chk_as_err in H; subst e; exact H0|]. eapply IH. exact H.
+Qed.
+
+Lemma dist_prepare_nf : forall coins total e, dist_prepare coins total = Val (inl e) -> nf e.
+Proof.
+  induction coins as [|c r IH]; intros total e H; cbn [dist_prepare] in H; [discriminate|].
+  destruct (c =? 0); [injection H as <-; nf_const|].
+  apply bindR_err in H. destruct H as [H|(t & _ & H)]; [eapply chk_add_err; exact H|].
+  apply bindR_err in H. destruct H as [H|(u & _ & H)]; [eapply chk_u2i_err; exact H|]. eapply IH. exact H.
+Qed.
+
+Lemma dist_frac_nf hours total : forall coins acc e, dist_frac coins hours total acc = Val (inl e) -> nf e.
+Proof.
+  induction coins as [|c r IH]; intros acc e H; cbn [dist_frac] in H; [discriminate|].
+  destruct (total =? 0); [discriminate|].
+  destruct (negb (in_ub 64 (c * hours / total))); [injection H as <-; nf_const|].
+  apply bindR_err in H. destruct H as [H|(a & _ & H)]; [eapply chk_add_err; exact H|].
+  apply bindR_err in H. destruct H as [H|([l a'] & _ & H)]; [eapply IH; exact H|discriminate].
+Qed.
+
+Lemma distribute_nf coins hours e : distribute coins hours = Val (inl e) -> nf e.
+Proof.
+  unfold distribute. intros H.
+  destruct (len coins =? 0); [injection H as <-; nf_const|].
+  apply bindR_err in H. destruct H as [H|(total & _ & H)]; [eapply dist_prepare_nf; exact H|].
+  apply bindR_err in H. destruct H as [H|(u1 & _ & H)]; [eapply chk_u2i_err; exact H|].
+  apply bindR_err in H. destruct H as [H|(u2 & _ & H)]; [eapply chk_u2i_err; exact H|].
+  apply bindR_err in H. destruct H as [H|([fr assigned] & _ & H)]; [eapply dist_frac_nf; exact H|].
+  destruct (hours <? assigned); [injection H as <-; nf_const|].
+  destruct (wrap 64 (hours - assigned) >? len coins); [injection H as <-; nf_const|].
+  destruct (dist_zeros fr (wrap 64 (hours - assigned))) as [l1 rem1]. exfalso. eapply lift_err. exact H.
+Qed.
+
+Lemma assign_hours_nf p remaining e : assign_hours p remaining = Val (inl e) -> nf e.
+Proof.
+  unfold assign_hours. intros H. destruct (p_type p); try discriminate.
+  destruct (p_mode p); try discriminate. destruct (p_share p) as [[num den]|]; try discriminate.
+  apply bindR_err in H. destruct H as [H|(hours & _ & H)]; [eapply chk_u2i_err; exact H|].
+  destruct (den <=? 0); [discriminate|].
+  apply bindR_err in H. destruct H as [H|(al & _ & H)]; [eapply chk_i2u_err; exact H|].
+  apply bindR_err in H. destruct H as [H|(hs & _ & H)]; [eapply distribute_nf; exact H|discriminate].
+Qed.
+
+Lemma create_step_complete burn again p uxb e :
+  1 <= burn < 2 ^ 32 -> Forall ux_range uxb -> csum uxb < 2 ^ 64 -> hsum uxb < 2 ^ 64 ->
+  Forall out_range (p_to p) ->
+  create_step burn again p uxb = Val (inl e) -> funds_ok burn p uxb e.
+Proof.
+  intros Hb Hux Hcs Hhs Hto H. unfold create_step in H.
+  destruct (validate p) eqn:Ev; [injection H as <-; apply nf_funds; eapply validate_nf; exact Ev|].
+  destruct (nodupb Z.eqb (map u_hash uxb)) eqn:End; cbn [negb] in H; [|injection H as <-; apply nf_funds; nf_const].
+  apply bindR_err in H. destruct H as [H|([toc rh] & Hsum_to & H)]; [apply nf_funds; eapply sum_to_nf; exact H|].
+  apply sum_to_ok in Hsum_to; [|assumption|unfold in_u; rewrite pow64; lia|unfold in_u; rewrite pow64; lia].
+  destruct Hsum_to as (-> & -> & Htoc & Hrh). rewrite !Z.add_0_l in *.
+  apply bindR_err in H. destruct H as [H|(spends & Hch & H)].
+  { (* the only real source of the two errors *)
+    destruct (choose_complete _ _ _ _ _ _ Hb Hux Hcs Hhs H) as [H1 H2]. split; assumption. }
+  destruct (choose_sound _ _ _ _ _ _ Hb Hux Hcs Hhs Hch) as (Hsp_ne & (sprest & Hperm) & Hsp_c & Hsp_h).
+  assert (Hsp_in : incl spends uxb).
+  { intros x Hx. eapply Permutation_in; [exact Hperm|]. apply in_app_iff. left; exact Hx. }
+  assert (Hsp_r : Forall ux_range spends).
+  { apply Forall_forall. intros x Hx. rewrite Forall_forall in Hux. apply Hux. apply Hsp_in. exact Hx. }
+  apply bindR_err in H. destruct H as [H|([tic tih] & Hss & H)]; [apply nf_funds; eapply sum_spends_nf; exact H|].
+  apply sum_spends_ok in Hss; [|assumption|unfold in_u; rewrite pow64; lia|unfold in_u; rewrite pow64; lia].
+  destruct Hss as (-> & -> & Htic & Htih). rewrite !Z.add_0_l in *.
+  rewrite RequiredFee_ceil in H by assumption. cbn [lift bindR ok] in H.
+  destruct (ceil_div (hsum spends) burn =? 0); [injection H as <-; apply nf_funds; nf_const|].
+  apply bindR_err in H. destruct H as [H|(outs & _ & H)]; [apply nf_funds; eapply assign_hours_nf; exact H|].
+  destruct (len outs >? MaxUint16); [injection H as <-; apply nf_funds; nf_const|].
+  apply bindR_err in H. destruct H as [H|(toh & _ & H)]; [apply nf_funds; eapply sum_chk_as_nf; [|exact H]; nf_const|].
+  destruct (ocsum (p_to p) >? csum spends) eqn:Ecoins; [lia|].
+  destruct (toh >? wrap 64 (hsum spends - ceil_div (hsum spends) burn)); [injection H as <-; apply nf_funds; nf_const|].
+  apply bindR_err in H. destruct H as [H|([[spends2 cc2] ch2] & _ & H)].
+  { (* errors of the extra-input step *)
+    apply nf_funds.
+    destruct ((wrap 64 (csum spends - ocsum (p_to p)) =? 0) && (wrap 64 (wrap 64 (hsum spends - ceil_div (hsum spends) burn) - toh) >? 0)); [|discriminate].
+    apply bindR_err in H. destruct H as [H|(zs & _ & H)]; [exfalso; eapply lift_err; exact H|].
+    destruct zs as [|extra zs']; [discriminate|].
+    apply bindR_err in H. destruct H as [H|(nt & _ & H)]; [eapply chk_add_err; exact H|].
+    apply bindR_err in H. destruct H as [H|(nfee & _ & H)]; [exfalso; eapply lift_err; exact H|].
+    destruct (nfee <? ceil_div (hsum spends) burn); [injection H as <-; nf_const|].
+    destruct (wrap 64 (nfee - ceil_div (hsum spends) burn) <? wrap 64 (wrap 64 (hsum spends - ceil_div (hsum spends) burn) - toh)); [|discriminate].
+    destruct (u_hours extra <? wrap 64 (nfee - ceil_div (hsum spends) burn)); [injection H as <-; nf_const|].
+    apply bindR_err in H. destruct H as [H|(chh & _ & H)]; [eapply chk_add_err; exact H|].
+    destruct (len spends >=? MaxUint16); [injection H as <-; nf_const|discriminate]. }
+  destruct ((cc2 =? 0) && (ch2 >? 0) && is_auto_share p).
+  { apply nf_funds. destruct (p_share p) as [[num den]|]; [|discriminate].
+    destruct (num =? den); [injection H as <-; nf_const|]. destruct again; [injection H as <-; nf_const|discriminate]. }
+  apply bindR_err in H. destruct H as [H|(outs2 & _ & H)].
+  { apply nf_funds. destruct (cc2 >? 0); [|discriminate].
+    apply bindR_err in H. destruct H as [H|(addr & _ & H)].
+    - destruct (p_change p); [discriminate|]. destruct (min_addr spends2); [discriminate|]. injection H as <-. nf_const.
+    - destruct (existsb (txout_eqb (mk_out addr cc2 ch2)) outs); [injection H as <-; nf_const|].
+      destruct (len outs >=? MaxUint16); [injection H as <-; nf_const|discriminate]. }
+  apply nf_funds.
+  destruct (lookup_all uxb (map u_hash spends2)); [|injection H as <-; nf_const].
+  destruct (invariants burn p l outs2) as [|[e1|[]]]; try discriminate. injection H as <-. nf_const.
+Qed.
+
+(* construction fails for lack of funds only when the offered outputs really
+   cannot cover the requested coins / hours *)
+Lemma create_complete burn p uxb e :
+  1 <= burn < 2 ^ 32 -> Forall ux_range uxb -> csum uxb < 2 ^ 64 -> hsum uxb < 2 ^ 64 ->
+  Forall out_range (p_to p) ->
+  create burn p uxb = Val (inl e) ->
+  (e = ErrInsufficientBalance -> csum uxb < ocsum (p_to p)) /\
+  (e = ErrInsufficientHours -> ocsum (p_to p) <= csum uxb /\ remaining_of burn (hsum uxb) < ohsum (p_to p)).
+Proof.
+  intros Hb Hux Hcs Hhs Hto H. unfold create in H.
+  apply bindR_err in H. destruct H as [H|([c1|[]] & _ & H)].
+  - eapply create_step_complete; eassumption.
+  - discriminate.
+  - apply bindR_err in H. destruct H as [H|([c2|[]] & _ & H)]; try discriminate.
+    change (p_to p) with (p_to (with_share_one p)).
+    eapply (create_step_complete burn true (with_share_one p)); eassumption.
+Qed.
